@@ -21,8 +21,12 @@ const OPS: [&[u8]; 8] = [b"ZZ", b"ARG", b"ARG 999", b"ARG 1 2", b"CUST", b"SYST:
 const OP_NAMES: [&str; 8] = ["undefined-header", "arity-fault", "conversion-fault", "syntax-fault", "custom-error", "NEXT?", "COUNT?", "valid-command"];
 /// parse-level faults end their message (the rest of the message is discarded)
 const OP_ENDS_MESSAGE: [bool; 8] = [true, false, false, true, false, false, false, false];
-const EXTRA_OPS: [&[u8]; 9] =
-    [b"CUSTB?", b"HW", b"VAL?", b"SYSTEM:ERROR:NEXT?", b"CUSTZ", b"CUSTP", b"CUSTN", b"CUSTO", b"syst:err:next?"];
+/// (the last three: the queue queries themselves called with a surplus parameter - a faulty unit
+/// like any other: one error, and the queue is neither read nor changed otherwise)
+const EXTRA_OPS: [&[u8]; 12] = [
+    b"CUSTB?", b"HW", b"VAL?", b"SYSTEM:ERROR:NEXT?", b"CUSTZ", b"CUSTP", b"CUSTN", b"CUSTO", b"syst:err:next?", b"SYST:ERR? 1", b"SYST:ERR:COUN? 5",
+    b"SYST:ERR:NEXT? 0,0",
+];
 
 #[derive(Default)]
 struct Acc {
